@@ -200,7 +200,7 @@ fn frame_of(plan: &PipelinePlan, tx: &Tx) -> Option<(Vec<u8>, Option<world::Trut
             let (f, enc) = if truth.surface {
                 world::df17_surface_position(ac.icao, 5 + tx.sel % 4, truth.gs, truth.heading, truth.lat, truth.lon, tx.odd)
             } else {
-                world::df17_airborne_position(ac.icao, 9 + tx.sel % 10, truth.alt as i32, truth.lat, truth.lon, tx.odd)
+                world::df17_airborne_position(ac.icao, [9u8, 10, 11, 12, 13, 14, 15, 16, 17, 18, 20, 21, 22][tx.sel as usize % 13], truth.alt as i32, truth.lat, truth.lon, tx.odd)
             };
             if world::nl_margin(enc.rlat) < 1e-6 {
                 return None;
